@@ -399,6 +399,12 @@ PROPS["C17"] = {
          "quick": {"checks": 500, "shards": 4}, "thorough": {"checks": 5000, "shards": 16}},
         {"name": "concurrent-first", "mode": "plain", "test": "TestC17Concurrent",
          "quick": {"checks": 2500, "shards": 4}, "thorough": {"checks": 40000, "shards": 8}},
+        {"name": "create-race-detector", "mode": "race", "test": "TestC17Create",
+         "quick": {"checks": 60, "shards": 3}, "thorough": {"checks": 1500, "shards": 8}},
+        {"name": "concurrent-race-detector", "mode": "race", "test": "TestC17Concurrent",
+         "thorough": {"checks": 1500, "shards": 8}},
+        {"name": "wipe-race-detector", "mode": "race", "test": "TestC17Wipe",
+         "thorough": {"checks": 1000, "shards": 8}},
         {"name": "wipe-under-load", "mode": "plain", "test": "TestC17Wipe",
          "quick": {"checks": 300, "shards": 4}, "thorough": {"checks": 10000, "shards": 8}},
         {"name": "concurrent-create", "mode": "plain", "test": "TestC17Create",
@@ -654,3 +660,4 @@ PROPS["C17"]["rule"] += " A fourth part (wipe-under-load): 1-3 requests that run
 PROPS["C20"]["rule"] += " A fifth part (http-breaker) drives the breaker where rulio uses it, in core.HTTPRequest.Do: a breaker (limit 1..5 per minute) registered for a host, 1-3 bursts of 2-16 concurrent requests to that host through an in-process transport that counts what goes out (no network); at most `limit` requests go out, exactly min(total, limit) do, the others are answered 430; non-trivial = more requests than the limit."
 PROPS["C15"]["rule"] += " One schedule in eight of the sys.System part lies wholly in the past (1 January 2001 on the virtual clock): the rule is refused (and then nothing changes - a rule of that id that was there keeps running) or it exists and never runs."
 PROPS["C12"]["rule"] += " Facts carry a second property with one of two names, and `searchKind` requests search for one of them (such a search meets what overwritten and removed facts left behind in the term index)."
+PROPS["C17"]["rule"] += " The three concurrent parts also run under the race detector (create: both tiers; first-requests and wipe: thorough tier): any data race report naming rulio frames is a violation."
